@@ -15,7 +15,7 @@ TRANSLATE = {'modules': [
                    'Q_from_wavelength', 'wavelength_from_Q', 'dspacing_from_wavelength',
                    'dspacing_from_energy']},
 ]}
-RUN_FILES = ['Tie.v', 'Properties.v', 'Corr.v']
+RUN_FILES = ['Tie.v', 'Properties.v', 'FloatErr.v', 'Corr.v']
 TRUSTED = [
     'tools/py2coq.py (syntactic translator, fail-closed)',
     'coq/Sem/Val.v: model of scipp unit algebra, dtype promotion, to_unit, astype, sqrt, sin (element-wise)',
@@ -25,7 +25,9 @@ TRUSTED = [
 ]
 ASSUMPTIONS = [
     'IEEE arithmetic without overflow/underflow of intermediates (float32 cases are generated in natural units only)',
-    'theorems are over exact reals; rounding is covered by the correspondence tolerance (1e-12 double - scipp unit-conversion factors carry up to ~4e-14 - and 2e-6 single; the property allows 1e-11 / 1e-5)',
+    'FloatErr.v: for wavelength_from_tof, energy_from_tof, energy_from_wavelength, wavelength_from_energy with float64 operands every '
+    'rounding step (binary64, unbounded exponent range = no overflow/underflow) is accounted for by theorem: relative error <= 5e-15; '
+    'for the trigonometric kernels and for float32 rounding is covered by the correspondence tolerance (1e-12 double - scipp unit-conversion factors carry up to ~4e-14 - and 2e-6 single; the property allows 1e-11 / 1e-5)',
 ]
 M = 'scippneutron.conversion.tof:'
 # kernel / composition name -> (operand kinds in model argument order, expression)
